@@ -861,7 +861,8 @@ def main():
             },
             'assumptions': ['theorem hypotheses (set measures): threshold the int 1 or a double in [2^-989, 1] (cosine: [2^-495, 1]) in the *_wide theorems, [2^-20, 1] in the original ones; token-set sizes < 2^32, right table < 2^40 rows, set tokenizer returns duplicate-free lists',
                             'joblib returns results in job order and workers share nothing (quick tier runs the chunked path in-process)',
-                            'join columns hold strings or missing values only'],
+                            'a present join value that is not a string makes model and code raise TypeError (modelled since the review); acceptance theorems assume string-or-missing join columns and no output column named _id (BodyOK)',
+                            'NaN thresholds are outside the value model PyV (tested on the real code by oracle_validation only)'],
             'wall_s': round(wall, 1), 'violations': len(real_viol) + (1 if (broken and not real_viol) else 0),
         }
         # SSJ_EVIDENCE_DIR: only set by tools/run_seeded_all.py / run_against_seeded.sh, so that runs against a deliberately
